@@ -21,6 +21,12 @@ Theorem c19_migrate : forall st blk sender, sorted ordNN (allow st) ->
   exists st', step (downgrade st) blk sender Migrate = Ok (st', []) /\ Inv19 st'.
 Proof. exact migrate_legacy_inv19. Qed.
 
+(* the whole life of a token that was once a pre-0.14 one: after ANY history, the upgrade of the legacy layout
+   of that state succeeds, and after ANY further history the three views still agree *)
+Theorem c19_lifecycle : forall m st cs1 blk sender cs2, instantiate m = Ok st ->
+  exists st2, step (downgrade (run st cs1)) blk sender Migrate = Ok (st2, []) /\ Inv19 (run st2 cs2).
+Proof. exact lifecycle19. Qed.
+
 (* the step contract S_C19 evaluated on the implementation never fires on a state satisfying the invariant,
    when the point queries are the non-default entries of the owner-keyed table (which is what the
    model's Allowance query returns) *)
@@ -38,6 +44,7 @@ Example c19_nonvacuous :
 Proof. eexists. split; [reflexivity|]. vm_compute. split; reflexivity. Qed.
 
 Print Assumptions c19_main.
+Print Assumptions c19_lifecycle.
 Print Assumptions c19_step.
 Print Assumptions c19_migrate.
 Print Assumptions c19_contract_never_fires_on_model.
